@@ -18,8 +18,8 @@ package main
 import (
 	"encoding/binary"
 	"fmt"
-	"os"
 	"math/big"
+	"os"
 	"sort"
 
 	"github.com/dominant-strategies/go-quai/common"
@@ -349,11 +349,13 @@ func c13Contracts(c *vx.Ctx) {
 	}
 }
 
-func init() { register(vx.CheckSpec{ID: "c13cdbg", Shards: 1, Run: func(c *vx.Ctx) {
-	core.VScaleParams(core.VR1)
-	core.VScaleLockBytes()
-	p := c.Part("dbg")
-	p.States = 1
-	k, d, cls := c13CRun([]int{0, 2, 0})
-	fmt.Println("RESULT", k, d, cls)
-}}) }
+func init() {
+	register(vx.CheckSpec{ID: "c13cdbg", Shards: 1, Run: func(c *vx.Ctx) {
+		core.VScaleParams(core.VR1)
+		core.VScaleLockBytes()
+		p := c.Part("dbg")
+		p.States = 1
+		k, d, cls := c13CRun([]int{0, 2, 0})
+		fmt.Println("RESULT", k, d, cls)
+	}})
+}
